@@ -90,7 +90,7 @@ ID_odd == <<97, 47, 98, 63, 99, 61, 100, 32, 101, 37>>   \* "a/b?c=d e%"
 ID_uni == <<195, 169, 228, 184, 150>>   \* "é世"
 H0 == [range |-> <<>>, crange |-> <<>>, ctype |-> <<>>, cl |-> 0]
 Sc0 == [ans |-> "ok", size |-> 3, mt |-> MT_test, rdig |-> D2, id |-> ID_plain, chunk |-> 7, wsize |-> 5,
-        werr |-> "ok", cerr |-> "ok", merr |-> "ok", items |-> <<>>, iterr |-> "ok", rfail |-> 0, rcerr |-> "ok"]
+        werr |-> "ok", cerr |-> "ok", merr |-> "ok", items |-> <<>>, iterr |-> "ok", rfail |-> 0, rcerr |-> "ok", eshape |-> "bare", estatus |-> 0]
 O0 == [noref |-> FALSE, nosingle |-> FALSE, maxpage |-> 0, omitdig |-> FALSE, omitlink |-> FALSE, locs |-> "nil"]
 O1 == [noref |-> TRUE, nosingle |-> TRUE, maxpage |-> 2, omitdig |-> TRUE, omitlink |-> TRUE, locs |-> "nil"]
 \* 3..6: LocationsForDescriptor set (one location, several, none, an error)
@@ -239,20 +239,22 @@ ItemLists == << <<>>, << <<97>> >>, << <<97>>, <<98>> >>, << <<97>>, <<98>>, <<9
 DigestLists == << <<>>, <<D1, D2>> >>
 
 \* ------------------------------------------------------------ handle cases
-AnsSeq == <<"ok", "uncoded", "BLOB_UNKNOWN", "BLOB_UPLOAD_INVALID", "BLOB_UPLOAD_UNKNOWN", "DIGEST_INVALID",
+AnsSeq == <<"ok", "uncoded", "custom", "BLOB_UNKNOWN", "BLOB_UPLOAD_INVALID", "BLOB_UPLOAD_UNKNOWN", "DIGEST_INVALID",
             "MANIFEST_BLOB_UNKNOWN", "MANIFEST_INVALID", "MANIFEST_UNKNOWN", "NAME_INVALID", "NAME_UNKNOWN", "SIZE_INVALID",
             "UNAUTHORIZED", "DENIED", "UNSUPPORTED", "TOOMANYREQUESTS", "RANGE_INVALID">>
 ASSUME {AnsSeq[i] : i \in 1..Len(AnsSeq)} = Answers
 AnsIdx(a) == CHOOSE i \in 1..Len(AnsSeq) : AnsSeq[i] = a
 AnsFew == {"ok", "DENIED", "uncoded", "BLOB_UPLOAD_UNKNOWN", "RANGE_INVALID"}
 AnsSec == {"ok", "DENIED", "uncoded", "RANGE_INVALID"}
+ShapeSeq == <<"bare", "wrap", "http", "httpresp", "httprespbody">>
+ASSUME {ShapeSeq[i] : i \in 1..Len(ShapeSeq)} = Shapes
 Ids == <<ID_plain, ID_odd, ID_uni, <<>>, <<105, 255>>>>       \* the last two: empty, not UTF-8
 CTypes == <<<<>>, MT_manifest, MT_index, MT_json>>
 
 \* cl: Content-Length; -2 stands for "the length of the body"
 D0 == [kind |-> "Ping", m |-> "GET", ans |-> "ok", rng |-> 1, size |-> 3, cr |-> 1, cl |-> -2, bi |-> 1, ct |-> 1,
        werr |-> "ok", cerr |-> "ok", merr |-> "ok", il |-> 1, iterr |-> "ok", nv |-> 1, lastv |-> FALSE, oi |-> 1,
-       ref |-> "tag", sid |-> 1, wsize |-> 5, defect |-> "none", rf |-> 0, rcerr |-> "ok"]
+       ref |-> "tag", sid |-> 1, wsize |-> 5, defect |-> "none", rf |-> 0, rcerr |-> "ok", es |-> 1, est |-> 418]
 K(kind, m) == [D0 EXCEPT !.kind = kind, !.m = m]
 ChunkCases(kind, m) ==
      {[K(kind, m) EXCEPT !.ans = a, !.cr = r, !.cl = c, !.bi = b] : a \in AnsFew, r \in 1..Len(CRanges), c \in {-1, 0, 1, 3}, b \in {1, 5, 6}}
@@ -274,6 +276,16 @@ DefectsOf(c) ==
   \cup (IF c.kind = "Mount" THEN {"from"} ELSE {})
   \cup (IF c.kind \in {"UploadBlob", "Mount", "CompleteUpload"} THEN {"qdigest"} ELSE {})
 OneDefect == UNION {{[c EXCEPT !.defect = d] : d \in DefectsOf(c)} : c \in Canon}
+\* error shapes: a standard code whose tabled status is 403 / 404 / 416, a custom code, an uncoded error, each wrapped
+\* (fmt %w, HTTPError without and with a real response) with a status that agrees or disagrees with the table
+ShapeAns == {"DENIED", "NAME_UNKNOWN", "BLOB_UPLOAD_INVALID", "custom", "uncoded"}
+ShapeCases ==
+  {[K(x[1], x[2]) EXCEPT !.ans = a, !.es = e, !.est = t, !.bi = 2] :
+     x \in {<<"BlobGet", "GET">>, <<"ManifestHead", "HEAD">>, <<"BlobDelete", "DELETE">>, <<"Mount", "POST">>, <<"UploadInfo", "GET">>, <<"ManifestPut", "PUT">>},
+     a \in ShapeAns, e \in 2..5, t \in {403, 404, 418}}
+  \cup {[K("TagsList", "GET") EXCEPT !.iterr = a, !.es = e, !.est = t] : a \in ShapeAns, e \in 2..5, t \in {403, 404, 418}}
+  \cup {[K("CompleteUpload", "PUT") EXCEPT !.merr = a, !.bi = 5, !.es = e, !.est = t] : a \in ShapeAns, e \in 2..5, t \in {403, 404, 418}}
+  \cup {[K("UploadChunk", "PATCH") EXCEPT !.werr = a, !.bi = 5, !.es = e, !.est = t] : a \in ShapeAns, e \in 2..5, t \in {403, 404, 418}}
 HandleCases ==
   {K("Ping", m) : m \in {"GET", "HEAD"}}
   \cup {[K("BlobHead", "HEAD") EXCEPT !.ans = a, !.size = z] : a \in Answers, z \in {0, 3}}
@@ -309,7 +321,7 @@ HandleCases ==
   \cup {[K("ManifestDelete", "DELETE") EXCEPT !.ans = a, !.ref = f] : a \in Answers, f \in {"tag", "dmatch"}}
   \cup ListCases("TagsList") \cup ListCases("Catalog")
   \cup {[K("Referrers", "GET") EXCEPT !.iterr = a, !.il = i, !.oi = o] : a \in Answers, i \in 1..Len(DigestLists), o \in 1..2}
-  \cup OneDefect
+  \cup OneDefect \cup ShapeCases
 
 
 Repo2 == <<T_foo, T_bar>>
@@ -348,12 +360,12 @@ HcHeaders(c) == [range |-> Ranges[c.rng], crange |-> CRanges[c.cr], ctype |-> CT
                  cl |-> IF c.cl = -2 THEN HcBody(c).n ELSE c.cl]
 HcSc(c) == [ans |-> c.ans, size |-> c.size, mt |-> MT_test, rdig |-> D2, id |-> Ids[c.sid], chunk |-> 7, wsize |-> c.wsize,
             werr |-> c.werr, cerr |-> c.cerr, merr |-> c.merr,
-            items |-> IF c.kind = "Referrers" THEN DigestLists[c.il] ELSE ItemLists[c.il], iterr |-> c.iterr, rfail |-> c.rf, rcerr |-> c.rcerr]
+            items |-> IF c.kind = "Referrers" THEN DigestLists[c.il] ELSE ItemLists[c.il], iterr |-> c.iterr, rfail |-> c.rf, rcerr |-> c.rcerr, eshape |-> ShapeSeq[c.es], estatus |-> c.est]
 HcHash(c) == c.rng * 7 + c.size * 3 + c.cr * 11 + (c.cl + 2) * 13 + c.bi * 17 + c.il * 19 + c.nv * 23 + c.oi * 29 + c.sid * 31
              + c.wsize * 37 + AnsIdx(c.ans) * 41 + AnsIdx(c.werr) * 43 + AnsIdx(c.cerr) * 47 + AnsIdx(c.merr) * 53
-             + AnsIdx(c.iterr) * 59 + c.ct * 61 + Len(c.ref) * 67 + Len(c.kind) * 71 + (IF c.lastv THEN 73 ELSE 0)
+             + AnsIdx(c.iterr) * 59 + c.ct * 61 + c.es * 83 + Len(c.ref) * 67 + Len(c.kind) * 71 + (IF c.lastv THEN 73 ELSE 0)
 HcExported(c) == \/ c.defect # "none"
-                 \/ c.rf > 0 \/ c.rcerr # "ok" \/ c.oi > 2
+                 \/ c.rf > 0 \/ c.rcerr # "ok" \/ c.oi > 2 \/ c.es > 1
                  \/ c.kind = "ManifestPut" /\ c.ans = "ok" /\ c.ref \in {"true512", "true384", "d384", "d512"}
                  \/ c.kind = "BlobGet" /\ c.ans = "ok" /\ c.rng > Len(BasicRanges)
                  \/ (HcHash(c) + Seed) % HandleK = 0
